@@ -519,12 +519,28 @@ fn recv_case<T: Probe + ?Sized>(
             Err(_) => outs.push("panic".into()),
             Ok(mut receiver) => {
                 for _ in 0..nrecv {
-                    let r = catch_unwind(AssertUnwindSafe(|| match receiver.recv() {
-                        Ok(g) => match consume_guard(g) {
-                            Ok(s) => format!("msg:{}", s),
-                            Err(p) => resume_unwind(p),
-                        },
-                        Err(e) => recv_err_s(e),
+                    let r = catch_unwind(AssertUnwindSafe(|| {
+                        // RecvGuard::retain leaves the message in the receiver: the next recv must hand out
+                        // the same message again without touching the pipe
+                        let first = match receiver.recv() {
+                            Ok(g) => {
+                                let mut first = String::new();
+                                DeepRead::deep(&*g, &mut first);
+                                g.retain();
+                                first
+                            }
+                            Err(e) => return recv_err_s(e),
+                        };
+                        let calls0 = st.borrow().calls;
+                        let second = receiver.recv();
+                        match second {
+                            Ok(g2) => match consume_guard(g2) {
+                                Ok(s) if s == first && st.borrow().calls == calls0 => format!("msg:{}", s),
+                                Ok(s) => format!("msg:RETAIN-MISMATCH:{}:{}", first, s),
+                                Err(p) => resume_unwind(p),
+                            },
+                            Err(e) => format!("msg:RETAIN-LOST:{}", recv_err_s(e)),
+                        }
                     }));
                     match r {
                         Ok(s) => outs.push(s),
@@ -544,14 +560,33 @@ fn recv_case<T: Probe + ?Sized>(
             Ok(mut receiver) => {
                 for _ in 0..nrecv {
                     let r = catch_unwind(AssertUnwindSafe(|| {
-                        let mut fut = Box::pin(receiver.recv());
-                        match drive(fut.as_mut(), &polls, limit) {
-                            None => None,
-                            Some(Ok(g)) => match consume_guard(g) {
-                                Ok(s) => Some(format!("msg:{}", s)),
+                        // retain, then recv again (own poll budget: the model counts the polls of the first
+                        // recv only); must complete at once with the same message and no pipe call
+                        let first = {
+                            let mut fut = Box::pin(receiver.recv());
+                            match drive(fut.as_mut(), &polls, limit) {
+                                None => return None,
+                                Some(Ok(g)) => {
+                                    let mut first = String::new();
+                                    DeepRead::deep(&*g, &mut first);
+                                    g.retain();
+                                    first
+                                }
+                                Some(Err(e)) => return Some(recv_err_s(e)),
+                            }
+                        };
+                        let calls0 = st.borrow().calls;
+                        let extra = Cell::new(0usize);
+                        let mut fut2 = Box::pin(receiver.recv());
+                        let second = drive(fut2.as_mut(), &extra, 1);
+                        match second {
+                            Some(Ok(g2)) => match consume_guard(g2) {
+                                Ok(s) if s == first && st.borrow().calls == calls0 => Some(format!("msg:{}", s)),
+                                Ok(s) => Some(format!("msg:RETAIN-MISMATCH:{}:{}", first, s)),
                                 Err(p) => resume_unwind(p),
                             },
-                            Some(Err(e)) => Some(recv_err_s(e)),
+                            Some(Err(e)) => Some(format!("msg:RETAIN-LOST:{}", recv_err_s(e))),
+                            None => Some("msg:RETAIN-PENDING".into()),
                         }
                     }));
                     match r {
@@ -605,10 +640,23 @@ where
                         Ok(g) => g,
                         Err(e) => return format!("alloc:{:?}", e.kind()),
                     };
-                    let g = match g.new_in_place(Dyn(spec)) {
+                    let mut g = g;
+                    // the uninitialised guard exposes the whole message buffer: both views have one length, at
+                    // least max_msg_len (not written to here: the model predicts the stale bytes a shorter
+                    // message leaves behind a longer one, and they are compared)
+                    let n = g.as_bytes().len();
+                    if n < max || g.as_mut_bytes().len() != n {
+                        return format!("guard-bytes:{}", n);
+                    }
+                    let mut g = match g.new_in_place(Dyn(spec)) {
                         Ok(g) => g,
                         Err(e) => return emplace_err_s(&e),
                     };
+                    // SendGuard derefs (shared and mutable) to the message that was just constructed
+                    let sz = (*g).size();
+                    if (&mut *g).size() != sz || (&mut *g).as_bytes().len() < sz {
+                        return "guard-deref-mismatch".into();
+                    }
                     match g.send() {
                         Ok(()) => "ok".into(),
                         Err(e) => format!("io:{:?}", e.kind()),
@@ -674,10 +722,19 @@ where
                             Err(e) => return Some(format!("alloc:{:?}", e.kind())),
                         }
                     };
-                    let g = match g.new_in_place(Dyn(spec)) {
+                    let mut g = g;
+                    let n = g.as_bytes().len();
+                    if n < max || g.as_mut_bytes().len() != n {
+                        return Some(format!("guard-bytes:{}", n));
+                    }
+                    let mut g = match g.new_in_place(Dyn(spec)) {
                         Ok(g) => g,
                         Err(e) => return Some(emplace_err_s(&e)),
                     };
+                    let sz = (*g).size();
+                    if (&mut *g).size() != sz || (&mut *g).as_bytes().len() < sz {
+                        return Some("guard-deref-mismatch".into());
+                    }
                     let mut fut = Box::pin(g.send());
                     Some(match drive(fut.as_mut(), &polls, limit)? {
                         Ok(()) => "ok".into(),
